@@ -4,6 +4,7 @@
 package vh
 
 import (
+	"bytes"
 	"crypto/sha256"
 	"encoding/json"
 	"fmt"
@@ -84,6 +85,10 @@ func RunReplay(reg map[string]func([]int64)) {
 			defer func() {
 				if r := recover(); r != nil {
 					if d, ok := r.(Diverged); ok {
+						if len(Failures) > 0 {
+							status, detail = "VIOLATED", fmt.Sprint(Failures)+" ("+d.Why+")"
+							return
+						}
 						status, detail = "DIVERGED", d.Why
 						return
 					}
@@ -92,6 +97,10 @@ func RunReplay(reg map[string]func([]int64)) {
 			}()
 			f(e.Args)
 		}()
+		if status == "VIOLATED" {
+			fmt.Printf("REPLAY-RESULT %d %s %s\n", i, status, detail)
+			continue
+		}
 		if status == "CLEAN" && len(Failures) > 0 {
 			status, detail = "VIOLATED", fmt.Sprint(Failures)
 		} else if status == "PANIC" && len(Failures) > 0 {
@@ -280,3 +289,30 @@ func fmtObs(v any) string {
 
 // Sha256 is SHA-256 (an uninterpreted function for the executor).
 func Sha256(b []byte) [32]byte { return sha256.Sum256(b) }
+
+// IsJSONOf reports whether data is the JSON encoding of v.
+func IsJSONOf(data []byte, v any) bool {
+	b, err := json.Marshal(v)
+	return err == nil && bytes.Equal(b, data)
+}
+
+// Settle gives goroutines started by the code under test time to run (native replay only).
+func Settle() { time.Sleep(50 * time.Millisecond) }
+
+// MustNotBlock runs f and asserts under label that it returns (natively: within 3 s).
+func MustNotBlock(label string, f func()) {
+	done := make(chan any, 1)
+	go func() {
+		defer func() { done <- recover() }()
+		f()
+	}()
+	select {
+	case r := <-done:
+		if r != nil {
+			panic(r)
+		}
+	case <-time.After(3 * time.Second):
+		Failures = append(Failures, label)
+		panic(Diverged{Why: "blocked: " + label})
+	}
+}
